@@ -123,8 +123,8 @@ EXPORT errno_t _strstr_s_chk(char *dest, rsize_t dmax, const char *src,
         }
     }
     if (unlikely(slen > dmax)) { /* now check the actual lengths */
-        len = strlen(src);
-        dlen = strlen(dest);
+        len = strnlen_s(src, slen);
+        dlen = strnlen_s(dest, dmax);
         if (len > dmax || len > dlen)
             return RCNEGATE(ESNOTFND);
     }
@@ -161,7 +161,7 @@ EXPORT errno_t _strstr_s_chk(char *dest, rsize_t dmax, const char *src,
             len--;
             dlen--;
 
-            if (src[i] == '\0' || !len) {
+            if (!len || src[i] == '\0') {
                 *substringp = dest;
                 return RCNEGATE(EOK);
             }
